@@ -224,6 +224,9 @@ pub enum COp {
     CancelAdd { steps: u32, nc: bool, polls: u32 },
     CancelSlow { steps: u32, polls: u32 },
     Slow { steps: u32 },
+    /// a call that is started and polled a few times, then left alone (alive, unpolled) while the same task makes
+    /// and completes another call through a clone of its client; afterwards the first call is awaited
+    Overlap { steps: u32, polls: u32 },
     /// a call whose reply is `size` bytes (many chunks, blocked on flow control with small receive buffers)
     Blob { size: u32 },
     /// the same, abandoned by the caller after n polls: typically while the reply is being transmitted
@@ -306,6 +309,50 @@ async fn client_task(cid: usize, mut client: AcctClient, script: Vec<(u64, COp)>
                     }
                 }
             }
+            COp::Overlap { steps, polls } => {
+                let idx = push("slow", 0);
+                let inner = client.clone();
+                let first = client.slow(id, steps);
+                tokio::pin!(first);
+                // Poll the first call until its request has reached the callee (a call future that is left alone
+                // while it still waits for a slot in the request queue would block the nested call by itself:
+                // the queue is fair), plus `polls` more polls; then leave it alone.
+                let mut early = None;
+                let mut started = false;
+                for _ in 0..300 {
+                    early = crate::sched::PollSome { fut: first.as_mut(), left: 1 }.await;
+                    started = log.lock().unwrap().contains(&LogEv::Started(id));
+                    if early.is_some() || started {
+                        break;
+                    }
+                    tokio::task::yield_now().await;
+                }
+                if early.is_none() && started && polls > 0 {
+                    early = crate::sched::PollSome { fut: first.as_mut(), left: polls }.await;
+                }
+                if early.is_none() && !started {
+                    // never got that far: no overlap in this run
+                    early = Some(first.as_mut().await);
+                }
+                // the nested call (a read) while the first one is alive but not polled
+                let idx2 = {
+                    let mut g = calls.lock().unwrap();
+                    g.push(CallRec { id: id + 500_000, client: cid, kind: "get", delta: 0, call: tick(&clock), ret: None, result: None, echo: None, cancelled: false, ck_at_drop: None });
+                    g.len() - 1
+                };
+                let r2 = inner.get(id + 500_000).await;
+                finish(idx2, r2);
+                let r = match early {
+                    Some(r) => r,
+                    None => first.await,
+                };
+                let mut g = calls.lock().unwrap();
+                g[idx].ret = Some(tick(&clock));
+                match r {
+                    Ok(e) => g[idx].echo = Some(e),
+                    Err(e) => g[idx].result = Some(Err(e.to_string())),
+                }
+            }
             COp::Blob { size } => {
                 let idx = push("blob", 0);
                 let r = client.blob(id, size).await;
@@ -345,7 +392,8 @@ fn gen_script(rng: &mut Rng, next_id: &mut u64, n: usize, cancel_pct: u64) -> Ve
                 x if x < cancel_pct + 30 => COp::Get,
                 x if x < cancel_pct + 70 => COp::Add { steps: rng.below(4) as u32, nc: rng.chance(30) },
                 x if x < cancel_pct + 78 => COp::Slow { steps: rng.below(3) as u32 },
-                x if x < cancel_pct + 84 => COp::Blob { size: *rng.pick(&[300u32, 3_000, 20_000]) },
+                x if x < cancel_pct + 82 => COp::Overlap { steps: rng.below(3) as u32, polls: rng.below(6) as u32 },
+                x if x < cancel_pct + 86 => COp::Blob { size: *rng.pick(&[300u32, 3_000, 20_000]) },
                 _ => COp::Pause(rng.below(4)),
             };
             (id, op)
